@@ -78,7 +78,7 @@ pub enum Error {
     #[error("Invalid backup version number {:?}", version)]
     InvalidVersion { version: String },
 
-    #[error("Index hunk {hunk_number} was listed but cannot be found")]
+    #[error("Index hunk {hunk_number} is missing")]
     IndexHunkMissing { hunk_number: u32 },
 
     #[error("Band {band_id} head file missing")]
